@@ -1,17 +1,17 @@
 SPECIFICATION Spec
 CONSTANTS
-  MaxTop = 6
+  MaxTop = 10
   MaxBlocks = 1
-  MaxSubs = 3
+  MaxSubs = 5
   MaxStmts = 1
   MaxNotes = 1
   MaxDirs = 0
   MaxNons = 0
   WordCounts = {2}
   GenBlockTypes = {"b", "c"}
-  GenNoteKinds = {"I", "M", "N"}
-  GenSubTypes = {"B", "C", "W"}
-  Rich = 1
-  Terse = 1
+  GenNoteKinds = {"M"}
+  GenSubTypes = {"B", "C"}
+  Rich = 0
+  Terse = 2
   Phased = TRUE
 CHECK_DEADLOCK FALSE
